@@ -49,6 +49,17 @@ def jobs_of(shape):
             for s in range(m):
                 g[f"/B{s}/0.{i}"] = [f"/B{s - 1}/0.{i}"] if s else list(first)
         g["/C/0"] = [f"/B{m - 1}/0.{i}" for i in range(n)]
+    elif k == "cross":
+        # two producers P, Q; Z uses both directly, X uses P directly and Q through Q1, Y uses Q directly and P through P1:
+        # seen from X and from Y the two common ancestors sit at different depths
+        g["/P/0"] = []
+        g["/Q/0"] = []
+        g["/P1/0"] = ["/P/0"]
+        g["/Q1/0"] = ["/Q/0"]
+        g["/Z/0"] = ["/P/0", "/Q/0"]
+        g["/X/0"] = ["/P/0", "/Q1/0"]
+        g["/Y/0"] = ["/Q/0", "/P1/0"]
+        g["/D/0"] = ["/Z/0", "/X/0", "/Y/0"]
     elif k == "fan":
         g["/A/0"] = []
         for n in ("B", "C", "E"):
@@ -97,6 +108,15 @@ def build(shape, b: R.Builder):
         gathered = b.gather("/B0", cur, size)
         out = b.exec_step("/C", {"x": gathered})
         return p_in, nin, out
+    if k == "cross":
+        p = b.exec_step("/P", {"x": p_in})
+        q = b.exec_step("/Q", {"x": p_in})
+        p1 = b.exec_step("/P1", {"x": p})
+        q1 = b.exec_step("/Q1", {"x": q})
+        z = b.exec_step("/Z", {"x": p, "y": q})
+        x = b.exec_step("/X", {"x": p, "y": q1})
+        y = b.exec_step("/Y", {"x": q, "y": p1})
+        return p_in, None, b.exec_step("/D", {"x": z, "y": x, "z": y})
     if k == "fan":
         a = b.exec_step("/A", {"x": p_in})
         outs = {key: b.exec_step(f"/{n}", {"x": a}) for key, n in (("x", "B"), ("y", "C"), ("z", "E"))}
@@ -136,6 +156,12 @@ def reference(shape):
         return [("0", v)]
     if k in ("sg", "sg2"):
         return [("0", c("/C", "0", {"x": gathered_elements(shape)}))]
+    if k == "cross":
+        p = c("/P", "0", {"x": "input0"})
+        q = c("/Q", "0", {"x": "input0"})
+        p1 = c("/P1", "0", {"x": p})
+        q1 = c("/Q1", "0", {"x": q})
+        return [("0", c("/D", "0", {"x": c("/Z", "0", {"x": p, "y": q}), "y": c("/X", "0", {"x": p, "y": q1}), "z": c("/Y", "0", {"x": q, "y": p1})}))]
     if k == "fan":
         a = c("/A", "0", {"x": "input0"})
         return [("0", c("/D", "0", {"x": c("/B", "0", {"x": a}), "y": c("/C", "0", {"x": a}), "z": c("/E", "0", {"x": a})}))]
